@@ -4,7 +4,7 @@ import json
 from .node_base import BaseNode
 from .parser import Parser
 from . import BooleanNode, IntegerNode, FloatNode, StringNode
-from ..settings import Sign
+from ..settings import Sign, Keyword
 
 class TableNode(BaseNode):
     keyword: str = 'table'
@@ -69,6 +69,11 @@ class TableNode(BaseNode):
             for c in range(ncols):
                 if table[c].dimension:
                     table[c].value_raw.append(json.loads(row[c]))
+                elif table[c].keyword==BooleanNode.keyword:
+                    # the words true/false, as for scalar boolean nodes (a non-empty text alone would always count as true)
+                    if row[c] not in [Keyword.TRUE, Keyword.FALSE]:
+                        raise Exception("Could not convert raw value to boolean type:", row[c])
+                    table[c].value_raw.append(row[c]==Keyword.TRUE)
                 else:
                     table[c].value_raw.append(row[c])
         # set additional node parameters
